@@ -85,7 +85,9 @@ EXTRA = {
  "C10": " A rare family gives one side of a real-vs-real session 255..1100 entries by as many distinct authors (filling the store is under the watchdog too).",
  "C11": " Lifecycle schedules also deliver neighbour-down notices through the live actor's real inbox dispatch: the slot kept for the peer must not change.",
  "C12": " Rare cases add a crowd of 31..257 subscribers that must all see the same sequence.",
- "C15": " Rare policies carry 126..300 filters.",
+ "C05": " About 0.7 % of the cases run every query once more through the client API of a real engine opened on the generated database (Doc::get_many / Doc::get_exact).",
+ "C15": " Rare policies carry 126..300 filters; a small family sets and reads policies through the client API of a real engine, with a restart from disk.",
+ "C17": " Some file-backed histories end with the lists read through the client API of a real engine opened on the database.",
  "C16": " Rare cases add 127..300 bystander documents (entries, policies, peers) that must be listed and unchanged at the end.",
  "C18": " The key each reported head names must survive every open that has nothing to rebuild.",
 }
